@@ -1,3 +1,76 @@
+//! Stand-alone runner.
+//! `run [N]`                 — N seeded cases (default 5000); exit code 1 if anything was reported
+//! `run --replay <file>...`  — re-execute the `case` of replay files (or bare case files) and print the violations
+//! `run --determinism N`     — execute N seeded cases twice and compare trace hash, verdict and counters
+//! `run --hashes N`          — print `seed hash verdict` lines (diff the output of two processes)
+use std::time::Instant;
+
+#[global_allocator]
+static A: simcore::alloc::CountingAlloc = simcore::alloc::CountingAlloc;
+
+fn ctx() -> simcore::Ctx {
+    simcore::Ctx {
+        prop: "C13".to_string(),
+        tier: simcore::Tier::Quick,
+        root_seed: std::env::var("VERIF_SEED").ok().and_then(|s| s.parse().ok()).unwrap_or(1),
+        threads: std::env::var("VERIF_THREADS").ok().and_then(|s| s.parse().ok()).unwrap_or(8),
+        known: Default::default(),
+        replay_dir: "/var/tmp/selftest-replays".to_string(),
+        started: Instant::now(),
+    }
+}
+
 fn main() {
-    println!("engine not implemented yet");
+    let args: Vec<String> = std::env::args().skip(1).collect();
+    match args.first().map(|s| s.as_str()) {
+        Some("--replay") | Some("replay") => {
+            let mut bad = 0;
+            for f in &args[1..] {
+                let text = std::fs::read_to_string(f).expect("read replay file");
+                let v: serde_json::Value = serde_json::from_str(&text).expect("json");
+                let case_v = if v.get("case").is_some() { v["case"].clone() } else { v.clone() };
+                let case: ccsim::Case = serde_json::from_value(case_v).expect("case");
+                let out = simcore::engine::execute_case(&ccsim::CcSim, &case, v["run_seed"].as_u64().unwrap_or(0));
+                println!("{f}: trace {:016x} harness_error={:?} ops={}", out.trace_hash, out.harness_error, case.ops.len());
+                for x in &out.violations {
+                    println!("  {} — {} (at {} ms)", x.signature(), x.detail, x.at);
+                }
+                if out.violations.is_empty() {
+                    println!("  no violation");
+                }
+                if std::env::var("CCSIM_STATS").is_ok() {
+                    println!("  counters {:?}", out.stats.0);
+                }
+                if let Some(want) = v["violation"]["signature"].as_str() {
+                    if !out.violations.iter().any(|x| x.signature() == want) {
+                        println!("  NOT REPRODUCED: wanted {want}");
+                        bad += 1;
+                    }
+                }
+            }
+            std::process::exit(if bad > 0 { 2 } else { 0 });
+        }
+        Some("--determinism") => {
+            let n: u64 = args.get(1).and_then(|s| s.parse().ok()).unwrap_or(500);
+            let bad = simcore::engine::determinism_check(&ctx(), &ccsim::CcSim, n);
+            for (seed, what) in &bad {
+                println!("NONDETERMINISTIC seed={seed} {what}");
+            }
+            println!("determinism: {n} cases executed twice, {} differ", bad.len());
+            std::process::exit(if bad.is_empty() { 0 } else { 2 });
+        }
+        Some("--hashes") => {
+            let n: u64 = args.get(1).and_then(|s| s.parse().ok()).unwrap_or(200);
+            simcore::engine::print_hashes(&ctx(), &ccsim::CcSim, n);
+        }
+        _ => {
+            let runs: u64 = args.first().and_then(|s| s.parse().ok()).unwrap_or(5000);
+            let t0 = Instant::now();
+            let n = simcore::selftest::run(&ccsim::CcSim, "C13", runs, simcore::Tier::Quick);
+            println!("wall {:.1}s", t0.elapsed().as_secs_f64());
+            if n > 0 {
+                std::process::exit(1);
+            }
+        }
+    }
 }
